@@ -51,7 +51,10 @@ pub fn parse_local_segments(local: &str) -> Vec<LocalSegment> {
         .split('.')
         .map(|part| {
             if !part.is_empty() && part.chars().all(|c| c.is_ascii_digit()) {
-                LocalSegment::new_uint(part.parse().unwrap_or(0))
+                // Digits that do not fit in u32 are kept as a string segment (without leading zeros)
+                part.parse()
+                    .map(LocalSegment::new_uint)
+                    .unwrap_or_else(|_| LocalSegment::Str(part.trim_start_matches('0').to_string()))
             } else {
                 LocalSegment::try_new_str(part.to_string()).unwrap()
             }
@@ -67,26 +70,40 @@ impl FromStr for PEP440 {
             .captures(s)
             .ok_or_else(|| ZervError::InvalidVersion(format!("Invalid PEP440 version: {s}")))?;
 
-        let release = captures
-            .name("release")
-            .map(|m| {
-                m.as_str()
-                    .split('.')
-                    .map(|x| x.parse().unwrap_or(0))
-                    .collect()
+        // A number that does not fit in u32 is rejected, never replaced by another number
+        let number = |m: regex::Match<'_>| -> Result<u32, ZervError> {
+            m.as_str().parse().map_err(|_| {
+                ZervError::InvalidVersion(format!(
+                    "Number too large in PEP440 version: {}",
+                    m.as_str()
+                ))
             })
-            .unwrap_or_else(|| vec![0]);
+        };
+
+        let release = match captures.name("release") {
+            Some(m) => m
+                .as_str()
+                .split('.')
+                .map(|x| {
+                    x.parse().map_err(|_| {
+                        ZervError::InvalidVersion(format!(
+                            "Number too large in PEP440 version: {x}"
+                        ))
+                    })
+                })
+                .collect::<Result<Vec<u32>, ZervError>>()?,
+            None => vec![0],
+        };
 
         let mut version = PEP440::new(release);
 
         if let Some(epoch_match) = captures.name("epoch") {
-            let epoch = epoch_match.as_str().parse().unwrap_or(0);
-            version = version.with_epoch(epoch);
+            version = version.with_epoch(number(epoch_match)?);
         }
 
         if let Some(pre_l) = captures.name("pre_l") {
             let label = PreReleaseLabel::from_str_or_alpha(pre_l.as_str());
-            let number = captures.name("pre_n").and_then(|m| m.as_str().parse().ok());
+            let number = captures.name("pre_n").map(number).transpose()?;
             version = version.with_pre_release(label, number);
         }
 
@@ -94,12 +111,13 @@ impl FromStr for PEP440 {
             let post_number = captures
                 .name("post_n1")
                 .or_else(|| captures.name("post_n2"))
-                .and_then(|m| m.as_str().parse().ok());
+                .map(number)
+                .transpose()?;
             version = version.with_post(post_number);
         }
 
         if captures.name("dev").is_some() {
-            let dev_number = captures.name("dev_n").and_then(|m| m.as_str().parse().ok());
+            let dev_number = captures.name("dev_n").map(number).transpose()?;
             version = version.with_dev(dev_number);
         }
 
